@@ -124,6 +124,11 @@ type c17nCloud struct {
 }
 
 func (c *c17nCloud) DescribeVSwitchByID(_ context.Context, id string) (*vpc.VSwitch, error) {
+	if id == "" {
+		// the id is only a filter of DescribeVSwitches (pkg/aliyun/client/vsw_default.go):
+		// without a filter the first vSwitch of the account comes back - a foreign one
+		return &vpc.VSwitch{VSwitchId: "vsw-foreign", ZoneId: c17nZone(0), AvailableIpAddressCount: 4000, CidrBlock: "172.16.0.0/16"}, nil
+	}
 	c.mu.Lock()
 	defer c.mu.Unlock()
 	i, ok := c17nIdx(id)
